@@ -230,6 +230,8 @@ def run(pid, tier, seed, t0):
                           {"seed": seed, "vector": vec, "record": rec, "clauses": clauses, "records_in_class": len(members)})
     import x_tlsstream
     tls_stage = x_tlsstream.stage(pid, tier, seed, verdict)      # TlsStream.tla: the C12 clauses (T2) on the real TLS streams
+    import c_pool
+    many = c_pool.manyorigins_stage(pid, tier, seed, verdict, "C12:")   # P_PoolClass beyond a thousand pool keys (PoolKeys.tla)
     code, unlisted = verdict.finish()
 
     # drift: real outcome differs from the intended model without falsifying a clause
@@ -249,7 +251,7 @@ def run(pid, tier, seed, t0):
                                                                "verified", "peerHs", "clientTls", "panicLoc")}}
                for i in sample_ids if 1 <= i <= len(recs)]
     coverage = {
-        "tls_stream_model": tls_stage,
+        "tls_stream_model": tls_stage, "pool_class_many_keys": many,
         "states": m.distinct, "transitions": m.generated, "depth": m.depth,
         "traces_validated_against_impl": nrec,
         "samples": samples,
@@ -308,6 +310,9 @@ def replay(pid, path):
     if _k == "duplex-trace":
         import x_duplex
         return x_duplex.replay(pid, obj)
+    if _k == "pool-manyorigins":
+        import c_pool
+        return c_pool.replay(pid, path)
     rep = obj["replay"]
     d = vlib.outdir(pid)
     vpath = os.path.join(d, "replay-vector.json")
